@@ -99,8 +99,10 @@ def validate_source(src, path, transformer_factory):
             c0 = compile(orig, path, "exec", dont_inherit=True)
             if c0.co_flags != code.co_flags:
                 problems.append("__future__ compiler flags differ")
-            f0 = sorted((c.co_name, c.co_firstlineno) for c in iter_code(c0))
-            f1 = sorted((c.co_name, c.co_firstlineno) for c in iter_code(code))
+            # CO_NEWLOCALS distinguishes function (and lambda / comprehension) code objects from class bodies,
+            # which may carry the same name as some function in the file
+            f0 = sorted((c.co_name, c.co_firstlineno) for c in iter_code(c0) if c.co_flags & 0x2)
+            f1 = sorted((c.co_name, c.co_firstlineno) for c in iter_code(code) if c.co_flags & 0x2)
             # not part of the property (and not demanded): the code object of a class that has user decorators starts at
             # the `class` line instead of the first decorator's line, because the added outermost decorator carries the
             # class statement's position; function code objects must keep theirs
